@@ -228,6 +228,6 @@ def evidence_extra(stats):
 def parts(tier):
     return [
         Enum("layout-grid(r,c,noise,trailing,nl,final-nl)", small_grid),
-        Hyp("generated-files", cases, quick=3000, thorough=60000),
-        Hyp("generated-files-long", lambda: cases(max_rows=60), quick=300, thorough=20000),
+        Hyp("generated-files", cases, quick=8000, thorough=60000),
+        Hyp("generated-files-long", lambda: cases(max_rows=60), quick=600, thorough=20000),
     ]
